@@ -35,7 +35,8 @@ def run(c):
     if binary:
         gen(c, binary)
     c.prove("SH.Props.C11", extra_files=["SH/Model/Norm.lean", "SH/Model/RawTag.lean", "SH/Gen/C11.lean",
-                                          "SH/Lemmas/Utf8C11.lean", "SH/Lemmas/NormC11.lean"])
+                                          "SH/Lemmas/Utf8C11.lean", "SH/Lemmas/NormC11.lean",
+                                          "SH/Lemmas/NormSpecC11.lean", "SH/Lemmas/NormInPlaceC11.lean"])
     drv = c.driver(DRIVER)
     if binary and drv:
         rc, out = c.go_run(binary, [f"-n={c.n(2500, 60000)}"])
@@ -58,16 +59,24 @@ META = {
     "technique": ("Lean 4 theorems (all byte strings / all decimal strings) over an executable model of validStringValue, "
                   "appendValidStringValue, ForceValidStringValue, utf8.DecodeRune/EncodeRune, ContainsRawTagValue(64)Bytes and "
                   "strconv.ParseInt/ParseUint + differential correspondence against the real functions"),
-    "text": ("Kernel-checked: the raw parsers accept exactly the decimal integers of their ranges and the stored pattern reads "
-             "back to the number; forcing yields a valid value of at most MaxStringLen bytes, is the identity on valid values "
-             "and idempotent; strict normalisation errs only on malformed UTF-8 and otherwise equals forcing — for arbitrary "
-             "IsSpace/IsPrint tables with four sanity facts, which are re-proved for the tables of the Go toolchain in use. "
-             "The model is tied to the code by replaying generated inputs on the real functions and on the compiled model."),
-    "note": ("Trusted: Lean kernel; correspondence on generated inputs; the Lean re-modelling of utf8 and strconv. 'Valid value' in "
-             "the theorems is the model of validStringValue itself (its agreement with the English definition - UTF-8, trimmed, "
-             "single ASCII spaces, printable - is checked on the real code by the oracle's independent specValid, and only "
-             "'valid => well-formed UTF-8 and <= maxLen' is proved in Lean). strict = error <=> malformed UTF-8 is proved in the "
-             "direction the property states; the converse is false for the code (bytes after the cut are not examined) and a "
-             "counterexample is kept in the file."),
+    "text": ("Kernel-checked, for arbitrary IsSpace/IsPrint tables with the four sanity facts of Tables.Sane (re-proved by decide "
+             "for the tables of the Go toolchain in use) and any length limit: (1) valid_iff - validStringValue holds exactly "
+             "for byte strings of at most maxLen bytes that decode as well-formed UTF-8 into runes that are all printable, whose "
+             "only space is U+0020, with no leading, trailing or doubled space; (2) force_valid / force_valid_spec - forcing "
+             "any byte string yields such a value; force_id_on_valid, force_idempotent, forceStr_eq_force; (3) strict "
+             "normalisation succeeds on well-formed UTF-8, errs only on malformed UTF-8 and whenever it succeeds equals "
+             "dst ++ force; (4) force_in_place_eq / force_in_place_memory - the array-level model of "
+             "ForceValidStringValueBytes (dst = b[:0] aliasing src = b, every read looking at the shared array as it is) "
+             "returns the out-of-place value for every backing array and capacity, and says what the caller's array holds "
+             "afterwards; (5) the raw parsers accept exactly the decimal integers of their ranges and the stored pattern reads "
+             "back. The models are tied to the code by replaying generated inputs on the real functions and on the compiled "
+             "model, including the caller's backing array after the in-place call and whether the result aliases it."),
+    "note": ("Trusted: Lean kernel; correspondence on generated inputs; the Lean re-modelling of utf8.DecodeRune/EncodeRune and "
+             "strconv.ParseInt/ParseUint; Go's append/memmove semantics as modelled by appendAtZero/poke (checked through the "
+             "'ip' op). Not claimed: strict = error <=> malformed UTF-8 (the converse is false for the code: bytes after the "
+             "cut are not examined; counterexample kept in the file). The write-directly-to-dst variant (WriteMode.direct, the "
+             "shape of seeded/C11-2) is in the model as a decide witness that it differs, plus direct_safe_when_not_growing: it "
+             "equals the out-of-place value whenever no written rune is longer than what was read (write index never "
+             "overtakes read index)."),
     "design_ref": "DESIGN.md §6 C11",
 }
